@@ -66,10 +66,17 @@ func (c cacheMsgs) commit(ctx sdk.Context, k common.KeeperOracle) {
 	}
 	index, _ := k.GetIndexRecentMsg(ctx)
 
+	// during the first MaxNonce blocks nothing is old enough to be removed; without this guard
+	// the unsigned subtraction wraps around and every recent message is removed, so a node
+	// restarted within that window cannot rebuild the open rounds.
+	var lastExpired uint64
+	if block > uint64(common.MaxNonce) {
+		lastExpired = block - uint64(common.MaxNonce)
+	}
 	i := 0
 	for ; i < len(index.Index); i++ {
 		b := index.Index[i]
-		if b > block-uint64(common.MaxNonce) {
+		if b > lastExpired {
 			break
 		}
 		k.RemoveRecentMsg(ctx, b)
@@ -115,10 +122,14 @@ func (c *cacheParams) add(p ItemP) {
 func (c *cacheParams) commit(ctx sdk.Context, k common.KeeperOracle) {
 	block := uint64(ctx.BlockHeight())
 	index, _ := k.GetIndexRecentParams(ctx)
+	var firstKept uint64
+	if block > uint64(common.MaxNonce) {
+		firstKept = block - uint64(common.MaxNonce)
+	}
 	i := 0
 	for ; i < len(index.Index); i++ {
 		b := index.Index[i]
-		if b >= block-uint64(common.MaxNonce) {
+		if b >= firstKept {
 			break
 		}
 		k.RemoveRecentParams(ctx, b)
